@@ -475,6 +475,7 @@ class X12Writer(X12Base):
         @type src_file_obj: string or open file object
         """
         self.fd_out = None
+        self.need_to_close = False
         try:
             res = src_file_obj.write
             # isinstance(f, file)
@@ -484,6 +485,7 @@ class X12Writer(X12Base):
                 self.fd_out = sys.stdout
             else:
                 self.fd_out = open(src_file_obj, mode='w', encoding='ascii')
+                self.need_to_close = True
         #assert self.fd_out.encoding in ('ascii', 'US-ASCII'), 'Outfile file must have ASCII encoding, is %s' % (self.fd_out.encoding)
         X12Base.__init__(self)
         #terms = set([seg_term, ele_term, subele_term, repetition_term])
@@ -499,6 +501,15 @@ class X12Writer(X12Base):
         """
         self._popToLoop('ISA')
         X12Base.Close(self)
+        if self.need_to_close:
+            # a file opened here by name: what was written has to reach it
+            self.fd_out.close()
+            self.need_to_close = False
+        else:
+            try:
+                self.fd_out.flush()
+            except (AttributeError, ValueError):
+                pass
 
     def Write(self, seg_data):
         """
